@@ -146,6 +146,7 @@ LEVEL_TEXT = ('Generated-input search over every linear transform of the library
               'scalars (incl. 0, 1e+-6), exact T(0)=0, agreement of every (n,c) output slice with one per-slice matrix extracted '
               'from basis inputs, the slice law, bitwise isolation between slices, permutation equivariance, and for tiny cases '
               'the complete operator against kron(I, A_slice).')
+LEVEL_TEXT += (' Also generated: NaN/inf in neighbouring slices, scalars down to 1e-20, 32-64 channels, oriented gratings, inputs in image geometry.')
 LEVEL_NOTE = ('Superposition over all input pairs cannot be exhausted; (iii)+(v)+(vii) reduce it to "the map is the matrix" on '
               'sampled inputs. Sizes <= 12x12 (1-D <= 40), filter length <= 12, float64.')
 TECHNIQUE = 'property-based testing (Hypothesis), algebraic/metamorphic relations (superposition, slice isolation, permutation, kron structure)'
